@@ -18,6 +18,8 @@ Families
 -/
 import GPy.Common.Basic
 import GPy.C12.Conform
+import GPy.C12.Placement
+import GPy.C12.Assemble
 namespace GPy.C12
 
 abbrev G := StateM Rng
@@ -117,6 +119,225 @@ def nestProgram (cons : List Con) (e : Exit) : Option Case :=
     ind 1 "except Exception:", ind 2 "pass"]
   some (mkCase ("nest:" ++ "/".intercalate (cons.map Con.name) ++ "/" ++ e.name) lines ["nt"])
 
+
+/-! ### family `pos` – every statement kind in every syntactic position
+
+A program is a *path* of slots (outermost first, `Placement.lean`) inside a frame, with one
+leaf statement in the innermost slot; all other slots hold a neutral filler and every wrapper
+is built so that the slot is really entered for some driver input.  The expected verdict comes
+from the SPEC `placementError`: `ok`, or `nocompile:E:SyntaxError` for the placements Python
+rejects.  For one path all accepted leaves are packed into one program (one function per leaf,
+named after the leaf); every rejected placement is its own case. -/
+
+def Slot.con? : Slot → Option Con
+  | .whileBody => some .whileL | .forBody => some .forL | .forElse => some .forElse
+  | .tfBody => some .tfBody | .tfFinal => some .tfFinal
+  | .teBody => some .teBody | .teTyped => some .teHandler | .teNamed => some .teaHandler | .teElse => some .teElse
+  | .tefBody => some .tef | .tefFinal => some .tefFinal | .withBody => some .w | .withAs => some .wa
+  | _ => none
+
+/-- wrap `inner` (indented one level deeper than `d`); `gen`: the nested `def` is a generator function -/
+def Slot.wrap (s : Slot) (d : Nat) (inner : List String) (gen : Bool) : List String :=
+  let i := ind d
+  let i1 := ind (d + 1)
+  match s.con? with
+  | some c => c.wrap d inner
+  | none =>
+  match s with
+  | .ifBody => [i "if a >= 0:"] ++ inner ++ [i "else:", i1 "a += 1"]
+  | .ifElse => [i "if a > 1:", i1 "a += 1", i "else:"] ++ inner
+  | .elifBody => [i "if a > 1:", i1 "pass", i "elif a >= 0:"] ++ inner ++ [i "else:", i1 "a -= 1"]
+  | .whileElse => [i s!"k{d} = 0", i s!"while k{d} < 1:", i1 s!"k{d} += 1", i "else:"] ++ inner
+  | .teBare => [i "try:", i1 "a = 1 // a", i "except:"] ++ inner
+  | .tefNamed => [i "try:", i1 "a = 2 // a", i "except ZeroDivisionError as e:"] ++ inner ++ [i "else:", i1 "a += 3", i "finally:", i1 "a += 1"]
+  | .tefElse => [i "try:", i1 "a += 0", i "except ValueError as e:", i1 "a += 1", i "else:"] ++ inner ++ [i "finally:", i1 "a += 2"]
+  | .defBody =>
+    [i s!"def n{d}(a):"] ++ inner ++ [i1 "return a"] ++
+      (if gen then [i s!"for x{d} in n{d}(a):", i1 "a += 1"] else [i s!"a = n{d}(a)"])
+  | .classBody => [i s!"b{d} = a", i s!"class K{d}:", i1 s!"a = b{d}"] ++ inner ++ [i s!"a = K{d}.a"]
+  | _ => inner
+
+def Leaf.lines (l : Leaf) (d : Nat) : List String :=
+  let i := ind d
+  let i1 := ind (d + 1)
+  match l with
+  | .misc => [i s!"x{d}, *y{d} = a, 1, 2", i s!"a += x{d}", i s!"l{d} = [a, 2]", i s!"l{d}[0] += 1", i s!"del l{d}[0]", i s!"del l{d}",
+              i "assert a is not None, 'm'", i "import math", i s!"from math import pi as p{d}", i s!"global gv{d}", i s!"gv{d} = a",
+              i "len([a])", i "pass", i s!"def q{d}(z=a):", i1 "return z", i s!"class Q{d}:", i1 "v = 1", i s!"a = q{d}() + Q{d}.v"]
+  | .pass => [i "pass"]
+  | .brk => [i "if a > 0:", i1 "break", i "a += 1"]
+  | .cont => [i "if a > 0:", i1 "continue", i "a += 1"]
+  | .ret => [i "if a > 0:", i1 "return a", i "a += 1"]
+  | .retNone => [i "if a > 0:", i1 "return", i "a += 1"]
+  | .raise => [i "if a > 0:", i1 "raise ValueError(a)", i "a += 1"]
+  | .raiseFrom => [i "if a > 0:", i1 "raise KeyError(a) from None", i "a += 1"]
+  | .reraise => [i "if a > 1:", i1 "raise", i "a += 1"]
+  | .yld => [i "b = yield a", i "a += 1"]
+  | .yieldFrom => [i "a += len([(yield from (a, 1))])"]
+  | .fault => [i "a = [1, 2][a]"]
+  | .ubrk => [i "a += 1", i "break", i "a += 1"]
+  | .ucont => [i "a += 1", i "continue", i "a += 1"]
+  | .uret => [i "a += 1", i "return a", i "a += 1"]
+  | .uraise => [i "a += 1", i "raise ValueError(a)", i "a += 1"]
+
+/-- the statement list of one (path, leaf) at indentation `d` -/
+def posBody (path : List Slot) (l : Leaf) (d : Nat) : List String :=
+  -- a nested def is a generator iff the leaf yields and the def is the innermost scope
+  let rec build : List Slot → Nat → List String
+    | [], d => l.lines d
+    | s :: ss, d => s.wrap d (build ss (d + 1)) (l.yields && s == .defBody && !(ss.any Slot.isScope))
+  build path d
+
+def pathName (fr : Frame) (path : List Slot) : String := fr.name ++ "/" ++ "/".intercalate (path.map Slot.name)
+
+def specVerdict (fr : Frame) (path : List Slot) (l : Leaf) : String :=
+  match placementError fr path l with
+  | none => "ok"
+  | some _ => "nocompile:E:SyntaxError"
+
+/-- one function holding (path, leaf) in a function frame -/
+def posFunc (fr : Frame) (path : List Slot) (l : Leaf) (fname : String) : List String :=
+  match fr with
+  | .funcLoop => [s!"def {fname}(a):", ind 1 "for i in range(2):"] ++ posBody path l 2 ++ [ind 2 "a += 1", ind 1 "return a"]
+  | _ => [s!"def {fname}(a):"] ++ posBody path l 1 ++ [ind 1 "return a"]
+
+def driver (plain gens : List String) : List String :=
+  (if plain.isEmpty then [] else
+    ["for fn in (" ++ ", ".intercalate plain ++ ",):", ind 1 "for a in (0, 1, 2, -1):", ind 2 "try:", ind 3 "fn(a)",
+     ind 2 "except Exception:", ind 3 "pass"]) ++
+  (if gens.isEmpty then [] else
+    ["for fn in (" ++ ", ".intercalate gens ++ ",):", ind 1 "for a in (0, 1, 2, -1):", ind 2 "try:", ind 3 "for x in fn(a):", ind 4 "pass",
+     ind 2 "except Exception:", ind 3 "pass",
+     ind 1 "try:", ind 2 "it = fn(1)", ind 2 "next(it)", ind 2 "it.send(3)", ind 2 "it.send(None)", ind 2 "next(it)",
+     ind 1 "except Exception:", ind 2 "pass"])
+
+/-- all cases of one (frame, path): the packed program of the accepted leaves + one case per rejected leaf -/
+def posCases (fr : Frame) (path : List Slot) (leaves : List Leaf) : List Case :=
+  let okLeaves := leaves.filter (fun l => (placementError fr path l).isNone)
+  let badLeaves := leaves.filter (fun l => (placementError fr path l).isSome)
+  let pn := pathName fr path
+  let prelude := if path.any (fun s => s == .withBody || s == .withAs) then prelude else []
+  let bad := badLeaves.map fun l =>
+    let lines := match fr with
+      | .module => prelude ++ ["a = 1"] ++ posBody path l 0
+      | _ => prelude ++ posFunc fr path l "f" ++ driver ["f"] []
+    { mkCase s!"pos:{pn}/{l.name}" lines ["nt", "synerr"] with modelV := specVerdict fr path l, specV := specVerdict fr path l }
+  match fr with
+  | .module =>
+    -- no packing at module level: one program per leaf
+    bad ++ okLeaves.map fun l => mkCase s!"pos:{pn}/{l.name}" (prelude ++ ["a = 1"] ++ posBody path l 0) ["nt"]
+  | _ =>
+    if okLeaves.isEmpty then bad else
+    let fns := okLeaves.map fun l => (l, s!"f_{l.name}")
+    -- the frame function itself is a generator iff the leaf yields and no nested scope holds it
+    let isGen := fun (l : Leaf) => l.yields && !(path.any Slot.isScope)
+    let body := fns.flatMap fun (l, n) => posFunc fr path l n
+    let plain := (fns.filter fun (l, _) => !isGen l).map (·.2)
+    let gens := (fns.filter fun (l, _) => isGen l).map (·.2)
+    bad ++ [mkCase s!"pos:{pn}/*" (prelude ++ body ++ driver plain gens) ["nt"]]
+
+/-- all paths of length `n` -/
+def pathsOf : Nat → List (List Slot)
+  | 0 => [[]]
+  | n + 1 => (pathsOf n).flatMap fun p => Slot.all.map fun s => s :: p
+
+/-- the leaves whose compilation depends on the context (used where the full set is too costly) -/
+def Leaf.jumps : List Leaf := [.brk, .cont, .ret, .yld, .ubrk, .ucont]
+
+
+/-! ### family `asm` – the assembler model (Assemble.lean) against compile/instructions.go
+
+Input `A <tokens>`: `o<op>` Op, `a<op>:<arg>` OpArg, `l<id>` Label, `J<op>:<id>` JumpAbs, `j<op>:<id>`
+JumpRel, `p<n>` n × `LOAD_CONST 0` (padding that pushes later offsets over 0xFFFF, so that operands need
+EXTENDED_ARG and the assembler needs several passes).  The harness builds the same `Instructions`
+value, runs the real `Assemble()` and `StackDepth()` and checks the SPEC on the emitted bytes itself
+(every jump lands on the byte offset of its label; V = `ok`, also when the assembler panics: then
+nothing is emitted); R = length/hash of the byte string and the stack depth, compared with the model. -/
+
+inductive ATok | one (i : AInstr) | pad (n : Nat)
+
+def ATok.str : ATok → String
+  | .one (.op o) => s!"o{Generated.Op.toNat o}"
+  | .one (.oparg o a) => s!"a{Generated.Op.toNat o}:{a}"
+  | .one (.label id) => s!"l{id}"
+  | .one (.jabs o _ d) => s!"J{Generated.Op.toNat o}:{d}"
+  | .one (.jrel o _ d) => s!"j{Generated.Op.toNat o}:{d}"
+  | .pad n => s!"p{n}"
+
+def ATok.expand : ATok → List AInstr
+  | .one i => [i]
+  | .pad n => List.replicate n (.oparg .LOAD_CONST 0)
+
+def hexByte (b : Nat) : String :=
+  let d := "0123456789abcdef".toList.toArray
+  String.ofList [d[(b / 16) % 16]!, d[b % 16]!]
+
+def bytesSummary (bs : List Nat) : String :=
+  let h := bs.foldl (fun acc b => (acc * 131 + b + 1) % 2147483647) 7
+  let head := String.join ((bs.take 48).map hexByte)
+  s!"len={bs.length} h={h} head={head}"
+
+def asmModelR (toks : List ATok) : String :=
+  let is := toks.flatMap ATok.expand
+  let code := match assemble is with
+    | .ok bs => bytesSummary bs
+    | .error e => "panic:" ++ e
+  let depth := match stackDepth is with
+    | some d => toString d
+    | none => "panic"
+  s!"{code} depth={depth}"
+
+def asmCase (toks : List ATok) : Case :=
+  { input := "A " ++ " ".intercalate (toks.map ATok.str), modelV := "ok", modelR := asmModelR toks, specV := "ok", tags := ["nt", "asm"] }
+
+def asmRand : G (List ATok) := do
+  let n := 4 + (← rnd 22)
+  let nl := 1 + (← rnd 4)
+  -- label k stands before slot lp[k]
+  let mut lps : List Nat := []
+  for _ in [0:nl] do lps := (← rnd (n + 1)) :: lps
+  let big ← chance 1 3
+  let mut out : List ATok := [.one (.oparg .LOAD_CONST 0)]
+  for slot in [0:n+1] do
+    for (lp, id) in lps.zip (List.range nl) do
+      if lp == slot then out := out ++ [.one (.label (id + 1))]
+    if slot == n then break
+    let later := (lps.zip (List.range nl)).filter (fun (lp, _) => lp > slot) |>.map (·.2 + 1)
+    let k ← rnd 20
+    let tok : ATok ←
+      if k < 6 then pure (.one (.oparg .LOAD_CONST (← rnd 3)))
+      else if k < 8 then pure (.one (.op .POP_TOP))
+      else if k < 9 then pure (.one (.op .BINARY_ADD))
+      else if k < 10 then pure (.one (.op .DUP_TOP))
+      else if k < 11 then pure (.one (.oparg .BUILD_TUPLE (← rnd 3)))
+      else if k < 15 then
+        let o ← pick #[Op.JUMP_ABSOLUTE, .POP_JUMP_IF_FALSE, .POP_JUMP_IF_TRUE, .JUMP_IF_TRUE_OR_POP, .JUMP_IF_FALSE_OR_POP, .CONTINUE_LOOP]
+        pure (.one (.jabs o 0 (1 + (← rnd nl))))
+      else if k < 18 then
+        if later.isEmpty then pure (.one (.op .ROT_TWO)) else
+        let o ← pick #[Op.JUMP_FORWARD, .SETUP_LOOP, .SETUP_EXCEPT, .SETUP_FINALLY, .FOR_ITER, .SETUP_WITH]
+        pure (.one (.jrel o 0 (← pick later.toArray)))
+      else if big then
+        -- around the 0xFFFF boundary: 21845 * 3 = 65535
+        let m ← pick #[21800, 21840, 21843, 21844, 21845, 21846, 21850, 22000, 43690]
+        pure (.pad (m + (← rnd 3)))
+      else pure (.one (.op .POP_BLOCK))
+    out := out ++ [tok]
+  return out ++ [.one (.oparg .LOAD_CONST 0), .one (.op .RETURN_VALUE)]
+
+/-- hand-written streams: multi-pass absolute jumps over the 64 KiB boundary, the oscillation FIXME,
+backwards relative jump, nested SETUPs -/
+def asmFixed : List (List ATok) := [
+  [.one (.jabs .JUMP_ABSOLUTE 0 1), .one (.op .POP_TOP), .one (.label 1), .one (.op .RETURN_VALUE)],
+  [.one (.oparg .LOAD_CONST 0), .one (.jabs .POP_JUMP_IF_FALSE 0 1), .pad 21850, .one (.label 1), .one (.oparg .LOAD_CONST 0), .one (.op .RETURN_VALUE)],
+  [.one (.oparg .LOAD_CONST 0), .one (.jabs .POP_JUMP_IF_FALSE 0 1), .one (.jabs .JUMP_ABSOLUTE 0 2), .pad 21842, .one (.label 1), .pad 3, .one (.label 2), .one (.oparg .LOAD_CONST 0), .one (.op .RETURN_VALUE)],
+  [.one (.jrel .SETUP_LOOP 0 1), .pad 21846, .one (.op .POP_BLOCK), .one (.label 1), .one (.oparg .LOAD_CONST 0), .one (.op .RETURN_VALUE)],
+  [.one (.jrel .JUMP_FORWARD 0 1), .pad 21844, .one (.jabs .JUMP_ABSOLUTE 0 1), .one (.label 1), .one (.oparg .LOAD_CONST 0), .one (.op .RETURN_VALUE)],
+  [.one (.label 1), .one (.op .NOP), .one (.jrel .JUMP_FORWARD 0 1), .one (.oparg .LOAD_CONST 0), .one (.op .RETURN_VALUE)],
+  [.one (.jrel .SETUP_FINALLY 0 1), .one (.jrel .SETUP_EXCEPT 0 2), .one (.oparg .LOAD_CONST 0), .one (.op .POP_TOP), .one (.op .POP_BLOCK),
+   .one (.label 2), .one (.op .POP_BLOCK), .one (.oparg .LOAD_CONST 0), .one (.label 1), .one (.op .END_FINALLY), .one (.oparg .LOAD_CONST 0), .one (.op .RETURN_VALUE)]
+]
+
 /-! ### family `feat` -/
 
 def featPrograms : List (String × List String) := [
@@ -146,7 +367,12 @@ def featPrograms : List (String × List String) := [
   ("docstrings-consts", ["'''module doc'''", "def f():", "    '''doc'''", "    return (1, 2.5, 'x', b'y', None, True, ..., 1j, (1, (2, 3)))", "class C:", "    '''cdoc'''", "    x = -1", "f()"]),
   ("deep-expression", ["a = 1", "x = ((((((((a + 1) * 2) - 3) // 4) % 5) << 1) >> 1) & 7) | 8 ^ 9", "y = [a, [a, [a, [a, [a, [a, [a, [a]]]]]]]]", "z = (a, (a, (a, (a, (a, (a, (a,)))))))", "f = len([len([len([len([a])])])])"]),
   ("many-args-call", ["def f(*a, **k):", "    return len(a)", "f(1, 2, 3, 4, 5, 6, 7, 8, 9, 10, 11, 12, 13, 14, 15, 16, 17, 18, 19, 20, a=1, b=2, c=3, d=4, e=5, f=6, g=7, h=8)"]),
-  ("class-kwargs-bases", ["class A: pass", "class B(A, object): pass", "bases = (A,)", "class C(*bases): pass", "def dec(c):", "    return c", "@dec", "class D(B):", "    def m(self):", "        return __class__", "D().m()"])
+  ("class-kwargs-bases", ["class A: pass", "class B(A, object): pass", "bases = (A,)", "class C(*bases): pass", "def dec(c):", "    return c", "@dec", "class D(B):", "    def m(self):", "        return __class__", "D().m()"]),
+  ("gen-try-finally-resume", ["def g(n):", "    k = 0", "    try:", "        while k < n:", "            try:", "                s = yield k", "                if s == 'x':", "                    raise ValueError(s)", "                if s == 'r':", "                    return 7", "            finally:", "                k += 1", "                yield -k", "    except ValueError:", "        yield 99", "    finally:", "        yield 100", "    yield 101", "for sends in ((None, None, None, None, None, None, None, None, None), (None, 'x', None, None, None), (None, 'r', None, None, None), (None, None, 'x'), ()):", "    it = g(2)", "    try:", "        for v in sends:", "            it.send(v)", "    except StopIteration:", "        pass", "    except Exception:", "        pass", "it = g(3)", "next(it)", "next(it)", "del it"]),
+  ("gen-yield-from-deleg", prelude ++ ["def leaf(n):", "    t = 0", "    for i in range(n):", "        try:", "            s = yield i", "        finally:", "            t += 1", "        if s:", "            t += s", "        if s == 50:", "            raise KeyError(s)", "    return t", "def mid(n):", "    try:", "        r = yield from leaf(n)", "        r += yield from leaf(1)", "    except KeyError:", "        r = -1", "        yield from [7, 8]", "    finally:", "        yield 'fin'", "    return r", "def top(n):", "    with M(False):", "        for j in range(2):", "            x = yield from mid(n)", "            yield (j, x)", "            if x == -1:", "                continue", "    yield from ()", "    yield from range(2)", "    return 5", "for sends in ((None,) * 20, (None, 5, 5, 5, 5, 5, 5), (None, None, 50, None, None, None, None, None, None, None), (None, 50)):", "    it = top(2)", "    try:", "        for v in sends:", "            it.send(v)", "    except StopIteration:", "        pass", "    except Exception:", "        pass", "def bad():", "    yield from 5", "try:", "    list(bad())", "except TypeError:", "    pass"]),
+  ("with-exits", prelude ++ ["def f(a):", "    r = 0", "    for i in range(3):", "        with M(a == 9) as m:", "            if a == 0:", "                continue", "            if a == 1:", "                break", "            if a == 2:", "                return i", "            with M(a == 3), M(False) as q:", "                if a == 3:", "                    raise ValueError(a)", "                if a == 4:", "                    break", "                if a == 5:", "                    continue", "                if a == 6:", "                    return r", "            r += 1", "        r += 10", "    else:", "        with M(True):", "            return -1", "    k = 0", "    while k < 2:", "        k += 1", "        try:", "            with M(False):", "                if a == 7:", "                    continue", "                if a == 8:", "                    break", "                r += 1 // (a - 10)", "        finally:", "            with M(True):", "                r += [1][a - 11]", "    return r", "def g(a):", "    for i in range(2):", "        with M(a == 1) as m:", "            v = yield i", "            if v:", "                return v", "            with M(False):", "                yield -i", "                if a == 2:", "                    break", "                if a == 3:", "                    continue", "            yield 5 // a", "for a in range(13):", "    try:", "        f(a)", "    except Exception:", "        pass", "for a in range(4):", "    try:", "        list(g(a))", "    except Exception:", "        pass", "    try:", "        it = g(a)", "        next(it)", "        it.send(4)", "    except StopIteration:", "        pass", "    except Exception:", "        pass"]),
+  ("nested-functions", ["def outer(a, b=2):", "    c = a + b", "    def mid(d, *e, f=c, **h):", "        nonlocal c", "        c += d", "        def inner(i=d):", "            nonlocal c", "            c += i", "            return lambda j: (a, b, c, d, f, i, j)", "        def gen(k):", "            nonlocal c", "            for x in range(k):", "                c += x", "                yield c", "            return inner", "        return inner, gen", "    fi, fg = mid(1, 2, 3, z=4)", "    r = fi()(5)", "    for v in fg(3):", "        r = r + (v,)", "    def rec(n):", "        if n <= 0:", "            return 0", "        try:", "            return n + rec(n - 1)", "        finally:", "            c", "    return r, rec(4), [fi(q)(q) for q in range(2)], {str(q): (lambda: q + c)() for q in range(2)}", "outer(1)", "outer(1, b=5)", "def deco(n):", "    def wrap(fn):", "        def call(*a, **k):", "            try:", "                return fn(*a, **k) + n", "            except TypeError:", "                return n", "        return call", "    return wrap", "@deco(1)", "@deco(2)", "def target(x, y=1):", "    return x + y", "target(1)", "target('s')"]),
+  ("class-bodies", prelude ++ ["def mk(base, n):", "    class A(base):", "        x = n", "        ys = []", "        for i in range(n):", "            try:", "                ys.append(i // (i - 1))", "            except ZeroDivisionError:", "                ys.append(-1)", "                continue", "            finally:", "                x += 1", "        else:", "            z = 0", "        with M(True):", "            w = 1 // (n - n)", "        class B:", "            v = n", "            def m(self):", "                return n + self.v", "            class C:", "                def k(self):", "                    return n", "        def meth(self, q=x):", "            def helper():", "                return __class__, self, q, n", "            return helper()", "        def gen(self):", "            yield from self.ys", "            return __class__", "        if n > 1:", "            def extra(self):", "                return self.x", "        while x > 100:", "            break", "        else:", "            t = [j for j in range(2)]", "    return A", "for n in (0, 1, 3):", "    K = mk(object, n)", "    k = K()", "    k.meth()", "    list(k.gen())", "    K.B().m()", "    K.B.C().k()", "def failing():", "    class F:", "        a = 1", "        b = [][a]", "    return F", "try:", "    failing()", "except IndexError:", "    pass", "def dec(c):", "    c.tag = 1", "    return c", "@dec", "class D(mk(object, 1)):", "    def __repr__(self):", "        return 'D'", "    def __len__(self):", "        return 2", "    def __getitem__(self, i):", "        if i > 1:", "            raise IndexError(i)", "        return i", "repr(D())", "len(D())", "list(D())"])
 ]
 
 /-! ### family `rand` -/
@@ -337,14 +563,46 @@ def genMain (tier : String) (seed : Nat) : IO Unit := do
   -- a code object larger than 64 KiB: absolute jump operands above 0xFFFF (EXTENDED_ARG on a jump)
   let big := (List.replicate 7000 "    a = a + 1")
   out := out.push (mkCase "feat:big-if-extended-jump" (["a = 0", "if a == 0:"] ++ big ++ ["else:", "    a = 5", "b = a"]) ["nt"]).line
+  -- asm: the assembler / StackDepth model against the real ones
+  for t in asmFixed do out := out.push (asmCase t).line
+  let mut ra : Rng := ⟨(seed + 77).toUInt64⟩
+  for _ in [0:(if thorough then 4000 else 300)] do
+    let (t, r') := asmRand.run ra
+    ra := r'
+    out := out.push (asmCase t).line
   -- nest: depth 1 and 2 exhaustively
   for e in Exit.all do
     for c1 in Con.all do
       if let some c := nestProgram [c1] e then out := out.push c.line
       for c2 in Con.all do
         if let some c := nestProgram [c1, c2] e then out := out.push c.line
+  -- pos: every leaf in every slot, paths of depth 0..2 exhaustively in both function frames;
+  -- module frame: depth 0..1 (thorough: ..2); depth 3: exhaustive in thorough, seeded sample in quick
+  for fr in [Frame.func, Frame.funcLoop] do
+    for n in [0, 1, 2] do
+      for path in pathsOf n do
+        -- quick: the depth-2 paths under the frame's loop (= depth 3) carry the context-dependent leaves only
+        let leaves := if n == 2 && fr == .funcLoop && !thorough then Leaf.jumps else Leaf.all
+        for c in posCases fr path leaves do out := out.push c.line
+  for n in (if thorough then [0, 1, 2] else [0, 1]) do
+    for path in pathsOf n do
+      for c in posCases .module path (Leaf.misc :: Leaf.jumps) do out := out.push c.line
+  if thorough then
+    for path in pathsOf 3 do
+      for c in posCases .func path Leaf.all do out := out.push c.line
   -- nest depth 3: all (thorough) / seeded sample (quick)
   let mut r : Rng := ⟨seed.toUInt64⟩
+  let npos := if thorough then 4000 else 150
+  for _ in [0:npos] do
+    let ((fr, path), r') := (do
+      let extra ← rnd 2
+      let n := (if thorough then 4 else 3) + extra
+      let mut path : List Slot := []
+      for _ in [0:n] do path := (← pick Slot.all.toArray) :: path
+      let fr ← pick #[Frame.func, Frame.funcLoop, Frame.module]
+      pure (fr, path) : G (Frame × List Slot)).run r
+    r := r'
+    for c in posCases fr path (if fr == .module then Leaf.misc :: Leaf.jumps else Leaf.all) do out := out.push c.line
   if thorough then
     for e in Exit.all do
       for c1 in Con.all do
